@@ -395,6 +395,8 @@ def payload_battery():
             cases += [("type name", tn.replace("{trip}", trip), [("string", "a")]) for tn in HOSTILE_TYPE_NAMES]
             cases += [("field type", "test/x", [(ft, "a")]) for ft in HOSTILE_FIELD_TYPES + _namespace_types()]
             # combinations with a keyword field (other class template) and with the same name without the newline
+            # a field name declared twice: the record could not have "exactly the declared fields"
+            cases += [("field list", "test/x", [("string", "a"), ("varint", "a")]), ("field list", "test/x", [("string", "a"), ("string", "b"), ("string", "a")]), ("field list", "test/x", [("string", "class"), ("uint16", "class")])]
             cases += [("field name", "test/x", [("string", "class"), ("string", "a\n")]), ("field name", "test/x", [("string", "a"), ("string", "a\n")]), ("type name", "test/x\n", [("string", "class")])]
             for kind, name, fields in cases:
                 n += 1
@@ -427,7 +429,7 @@ def payload_battery():
                     extra = _identifiers(src) - allowed
                     if extra:
                         probs.append(f"exec'd class source for {name!r} contains identifiers that are not validated names: {sorted(extra)[:5]}")
-    return {"ok": not probs, "detail": "; ".join(probs[:4]) or f"{n} definitions x 4 channels", "cex": {"problems": probs[:10]}}
+    return {"ok": not probs, "detail": "; ".join(probs[:4]) or f"{n} definitions x 4 channels", "cex": {"problems": probs[:400]}}
 
 
 def _solve_shadow(kind, timeout_ms=60000):
@@ -565,7 +567,12 @@ def replay(res):
     m = (res.get("cex") or {}).get("kw") or {}
     if res["kind"] == "side":
         out = payload_battery()
-        return {"reproduced": not out["ok"], "key": "C06/payloads", "what": out["detail"], "input": out["cex"]}
+        probs = out["cex"]["problems"] if not out["ok"] else []
+        dup = [p_ for p_ in probs if p_.startswith("hostile field list")]
+        if probs and len(dup) == len(probs):
+            # only the duplicate-field-name cases are accepted: the recorded finding K5, any other problem keeps the general key
+            return {"reproduced": True, "key": "C06/duplicate-field-names", "what": "; ".join(dup[:2]), "input": out["cex"]}
+        return {"reproduced": not out["ok"], "key": "C06/payloads", "what": "; ".join([p_ for p_ in probs if p_ not in dup][:4]) or out["detail"], "input": out["cex"]}
     if "shadowed" in gid:
         acc = _deliver_shadowed([tuple(f) for f in m.get("legit", [])], [tuple(f) for f in m.get("hostile", [])]) if m.get("hostile") else []
         return {"reproduced": bool(acc), "key": "C06/shadowed-definition", "what": f"the unacceptable definition {m.get('hostile')} is accepted through {acc} when it arrives after the legitimate {m.get('legit')} (same descriptor identifier)", "input": m}
